@@ -1148,18 +1148,41 @@ def selects_only_scalars(doc, operand):
     return True
 
 
+def gathers_only_scalars(doc, operand):
+    """Does the operand path select scalars, or lists / sets all of whose members are scalars?  (A collector expands such
+    a list into its members: what the operand contributes to the collection is scalars only.)"""
+    from yamlpath import Processor
+    from yamlpath.wrappers import NodeCoords
+    d = codec.json_to_ruamel(doc)
+    p = Processor(core.quiet_logger(), d)
+    try:
+        for nc in p.get_nodes(operand, mustexist=True):
+            v = NodeCoords.unwrap_node_coords(nc)
+            if isinstance(v, dict):
+                return False
+            if isinstance(v, (list, set)) and any(isinstance(NodeCoords.unwrap_node_coords(x), (dict, list, set)) for x in v):
+                return False
+    except Timeout:
+        raise
+    except Exception:
+        return True     # an operand that raises is judged by the whole query
+    return True
+
+
 def collector_chunk(args):
     """cases: (doc, operands, text).  Direct C15 check of collector paths whose operands select scalars;
-    the evaluator model does not cover collectors (counted out of model)."""
+    the evaluator model does not cover collectors (counted out of model).  opts["expand_lists"]: an operand may also
+    select lists of scalars (the collector expands them into their scalar members)."""
     cases, _opts = args
     core.use_repo()
     stats = {"n": 0, "in_quantifier": 0, "nonscalar_operand": 0, "crash_outside_quantifier": 0, "mutated": 0, "ok": 0, "ypath": 0}
     viol = []
     per_sig = {}
+    pred = gathers_only_scalars if _opts.get("expand_lists") else selects_only_scalars
     for doc, operands, text in cases:
         stats["n"] += 1
         try:
-            scalar_only = with_timer(lambda: all(selects_only_scalars(doc, o) for o in operands))
+            scalar_only = with_timer(lambda: all(pred(doc, o) for o in operands))
         except Timeout:
             scalar_only = True
         for mode in ("req", "exists"):
@@ -1225,7 +1248,7 @@ def keyword_chunk(args):
                 n = per_sig.get(sig, 0)
                 per_sig[sig] = n + 1
                 if n < 3:
-                    viol.append((sig, "%s query %r (keyword segment) raised %s at %s" % (mode, text, e, out.get("site")),
+                    viol.append((sig, "%s query %r (%s) raised %s at %s" % (mode, text, _opts.get("what", "keyword segment"), e, out.get("site")),
                                  {"doc": doc, "path": text, "items": items, "prop": "C15", "impl": out}))
     return stats, viol
 
